@@ -87,6 +87,17 @@ fn gen_den(r: &mut Rng, max_log: u32) -> i64 {
 
 /// numerator for a given denominator, biased to the ends of (-1,1] and just outside
 fn gen_num(r: &mut Rng, d: i64, big_log: u32) -> i64 {
+    if d > 1i64 << 40 {
+        // huge denominators (limit_denominator only): stay inside / at the ends of the
+        // interval so that nothing in the generator itself can overflow
+        return match r.below(6) {
+            0 => d,
+            1 => -d + 1,
+            2 => d - r.range(0, 3),
+            3 => -d + 1 + r.range(0, 3),
+            _ => r.range(-d + 1, d),
+        };
+    }
     match r.below(12) {
         0 => 0,
         1 => d,
@@ -755,7 +766,7 @@ pub fn run() {
     c.assume("float round trip tolerance: 4 ulp of max(1,|f|) (ulp = 2^-52), distance taken modulo 2");
     let t = c.tier;
     // batches of 64 sub-cases
-    let (b_nf, b_ar, b_lp, b_lr, b_fl) = t.pick((400usize, 300usize, 500usize, 200usize, 300usize), (40_000usize, 30_000usize, 50_000usize, 20_000usize, 30_000usize));
+    let (b_nf, b_ar, b_lp, b_lr, b_fl) = t.pick((2_000usize, 1_500usize, 2_500usize, 1_000usize, 1_500usize), (40_000usize, 30_000usize, 50_000usize, 20_000usize, 30_000usize));
     // python log: quick <= 20000 events, thorough <= 1e6
     let (keep_p, keep_r) = t.pick((230u64, 80u64), (11_000u64, 4_500u64));
     run_family("normal-form-eq-predicates", b_nf, 0, |f, i, r, t, _| sub_normal_eq_pred(f, i, r, t));
